@@ -185,3 +185,108 @@ func skeletonOf(fs *fileSet, name string) []string {
 	skeletonStmts(fs.fset, fd.Body.List, &out, "")
 	return out
 }
+
+// resetStale: the map / slice / pointer fields of the analyzed Spec (through its embedded index structs) that
+// `(*Spec).reset` does not give a fresh value (`make`, composite literal or nil).  `reload()` = `reset(); initialize()`
+// re-analyzes into the same Spec: a field that survives reset keeps entries of the previous document.
+func resetStale(fs *fileSet) []string {
+	structs := map[string]*ast.StructType{}
+	for _, f := range fs.files {
+		for _, d := range f.Decls {
+			gd, ok := d.(*ast.GenDecl)
+			if !ok {
+				continue
+			}
+			for _, sp := range gd.Specs {
+				if ts, ok := sp.(*ast.TypeSpec); ok {
+					if st, ok := ts.Type.(*ast.StructType); ok {
+						structs[ts.Name.Name] = st
+					}
+				}
+			}
+		}
+	}
+	var fields []string
+	var walk func(prefix string, st *ast.StructType)
+	walk = func(prefix string, st *ast.StructType) {
+		for _, f := range st.Fields.List {
+			for _, n := range f.Names {
+				name := prefix + n.Name
+				switch t := f.Type.(type) {
+				case *ast.MapType, *ast.ArrayType:
+					fields = append(fields, name)
+				case *ast.Ident:
+					if inner, ok := structs[t.Name]; ok {
+						walk(name+".", inner)
+					}
+				case *ast.StarExpr:
+					// the analyzed document itself (`spec *spec.Swagger`) is what reload re-reads; other pointers are state
+					if name != "spec" {
+						fields = append(fields, name)
+					}
+				default:
+					_ = t
+				}
+			}
+		}
+	}
+	root, ok := structs["Spec"]
+	if !ok {
+		return []string{"<no Spec struct>"}
+	}
+	walk("", root)
+	fresh := map[string]bool{}
+	var fd *ast.FuncDecl
+	for _, f := range fs.files {
+		for _, d := range f.Decls {
+			if x, ok := d.(*ast.FuncDecl); ok && x.Name.Name == "reset" && x.Recv != nil && x.Body != nil {
+				if _, typ := recvTypeName(x); typ == "Spec" {
+					fd = x
+				}
+			}
+		}
+	}
+	if fd == nil {
+		return []string{"<no reset method>"}
+	}
+	recv, _ := recvTypeName(fd)
+	// only top-level statements of reset count: an assignment under a condition does not always happen
+	for _, st := range fd.Body.List {
+		// … and only up to the first statement that can leave the function
+		leaves := false
+		ast.Inspect(st, func(n ast.Node) bool {
+			if _, ok := n.(*ast.ReturnStmt); ok {
+				leaves = true
+			}
+			return !leaves
+		})
+		if leaves {
+			break
+		}
+		as, ok := st.(*ast.AssignStmt)
+		if !ok || len(as.Lhs) != len(as.Rhs) {
+			continue
+		}
+		for i, l := range as.Lhs {
+			src := exprSrc(fs.fset, l)
+			if !strings.HasPrefix(src, recv+".") {
+				continue
+			}
+			r := as.Rhs[i]
+			isNil := false
+			if id, ok := r.(*ast.Ident); ok && id.Name == "nil" {
+				isNil = true
+			}
+			if isFreshExpr(r) || isNil {
+				fresh[strings.TrimPrefix(src, recv+".")] = true
+			}
+		}
+	}
+	var stale []string
+	for _, f := range fields {
+		if !fresh[f] {
+			stale = append(stale, f)
+		}
+	}
+	return stale
+}
